@@ -90,8 +90,13 @@ def esc_bytes(b, quote, rng=None, ascii_only=False):
     return bytes(out)
 
 
+VERSION_MARKER = re.compile(rb"\A\$ion_[0-9]+_[0-9]+\Z")
+
+
 def sym_text(t, rng, pretty):
-    if IDENT.match(t) and t not in KEYWORDS and not iongen.looks_like_sid(t) and not (pretty and rng.random() < 0.2):
+    # a bare $ion_1_0 at top level is the version marker, so text of that shape is quoted
+    if IDENT.match(t) and t not in KEYWORDS and not iongen.looks_like_sid(t) and not VERSION_MARKER.match(t) \
+            and not (pretty and rng.random() < 0.2):
         return t
     return b"'" + esc_bytes(t, 0x27) + b"'"
 
@@ -132,7 +137,7 @@ def ts_text(ts):
     return out
 
 
-def value_text(v, rng, pretty, indent=0):
+def value_text(v, rng, pretty, indent=0, long_ok=True):
     annots, body = v
     out = b""
     for a in annots:
@@ -163,7 +168,9 @@ def value_text(v, rng, pretty, indent=0):
     elif k == "sym":
         out += sym_text(body[1], rng, pretty)
     elif k == "str":
-        if pretty and rng.random() < 0.3:
+        # adjacent long strings concatenate, so a value that is only whitespace-separated from its
+        # neighbours (top level, s-expression) is not rendered as a long string
+        if pretty and long_ok and rng.random() < 0.3:
             t = body[1]
             cut = rng.randint(0, len(t))
             # cut only at a character boundary irrelevant here: bytes are copied raw
@@ -183,7 +190,7 @@ def value_text(v, rng, pretty, indent=0):
         out += b"{{" + b64 + b"}}"
     elif k in ("list", "sexp"):
         op, cl, sep = (b"[", b"]", b",") if k == "list" else (b"(", b")", b" ")
-        items = [value_text(x, rng, pretty, indent + 1) for x in body[1]]
+        items = [value_text(x, rng, pretty, indent + 1, long_ok=(k == "list")) for x in body[1]]
         if pretty and k == "list" and items and rng.random() < 0.2:
             items[-1] += b","
             out += op + nl + (sep + nl).join(items) + nle + cl
@@ -201,7 +208,7 @@ def value_text(v, rng, pretty, indent=0):
 
 def forest_text(vs, rng, pretty):
     sep = b"\n" if pretty else b" "
-    return sep.join(value_text(v, rng, pretty) for v in vs)
+    return sep.join(value_text(v, rng, pretty, long_ok=False) for v in vs)
 
 
 # ---------------------------------------------------------------------------
@@ -534,6 +541,24 @@ LST_DOCS = [
     b'$ion_symbol_table::{imports:[{name:"x",version:"1",max_id:2}],symbols:["a"]} $12', b'$ion_symbol_table::{imports:[{name:"x",version:0x1,max_id:0b10}],symbols:["a"]} $12',
     b'$ion_symbol_table::{imports:[{name:"x",max_id:2.}],symbols:["a"]} $10', b'$ion_symbol_table::{imports:[{name:"x",max_id:18446744073709551615}],symbols:["a"]} $10',
     b'$ion_symbol_table::{imports:[{name:"x",max_id:9223372036854775807},{name:"y",max_id:9223372036854775807}],symbols:["a"]} $10 a $1 $9223372036854775807',
+]
+
+# the version marker, the append marker spelled as text, a null symbols list
+LST_DOCS += [
+    b"$ion_1_0", b"$ion_1_0 $ion_1_0 1", b"1 $ion_1_0 2", b"a::$ion_1_0", b"$ion_1_0::a", b"$ion_1_0 ::a", b"'$ion_1_0'", b"'$ion_1_0' 1", b"[$ion_1_0]", b"($ion_1_0)",
+    b"{a:$ion_1_0}", b"$ion_1_1", b"$ion_2_0 1", b"$ion_1_0x", b"$ion_1_0.a", b"$2 1", b"$ion_1_0/*c*/1", b"$ion_1_0//c", b"$ion_1_0\x0b1", b"$ion_1_0,", b"$ion_1_0]",
+    b'$ion_symbol_table::{symbols:["a"]} $10 $ion_1_0 $10', b'$ion_symbol_table::{symbols:["a"]} $ion_1_0 $ion_symbol_table::{symbols:["b"]} $10',
+    b'$ion_symbol_table::{symbols:["a"]} \'$ion_1_0\' $10', b'$ion_symbol_table::{symbols:["a"]} x::$ion_1_0 $10', b'$ion_symbol_table::{symbols:["a"]} $2 $10',
+    b'$ion_symbol_table::{symbols:["a"]} $ion_symbol_table::{imports:$ion_symbol_table,symbols:["b"]} $ion_1_0 $10',
+    b'$ion_symbol_table::{symbols:["a"]} $ion_symbol_table::{imports:"$ion_symbol_table",symbols:["b"]} $10 $11',
+    b'$ion_symbol_table::{symbols:["a"]} $ion_symbol_table::{imports:\'\'\'$ion_symbol_table\'\'\',symbols:["b"]} $10 $11',
+    b'$ion_symbol_table::{symbols:["a"]} $ion_symbol_table::{imports:x::\'$ion_symbol_table\',symbols:["b"]} $10 $11',
+    b'$ion_symbol_table::{symbols:["a"]} $ion_symbol_table::{imports:\'$ion_symbol_tabl\',symbols:["b"]} $10 $11',
+    b'$ion_symbol_table::{symbols:["a"]} $ion_symbol_table::{imports:[$ion_symbol_table],symbols:["b"]} $10 $11',
+    b'$ion_symbol_table::{symbols:["$ion_symbol_table"]} $ion_symbol_table::{imports:$10,symbols:["b"]} $10 $11',
+    b"$ion_symbol_table::{symbols:null.list} 1 $10", b"$ion_symbol_table::{symbols:null.list,imports:null.list} $9 $10", b'$ion_symbol_table::{symbols:null.list,symbols:["a"]} $10',
+    b'$ion_symbol_table::{symbols:["a"]} $ion_symbol_table::{imports:$ion_symbol_table,symbols:null.list} $10 $11',
+    b"$ion_symbol_table::{symbols:null.sexp} 1", b"$ion_symbol_table::{symbols:null.string} 1", b"$ion_symbol_table::{symbols:()} 1", b"$ion_symbol_table::{symbols:{}} 1",
 ]
 
 VALID_SMALL = [b"[1, 2.5, 'a b']", b'{a:"x\\n", b:{{aGk=}}}', b"a::(b '''c''' 1e0)", b"2000-01-01T12:34:56.789Z null.int", b'{{"cl\\x41ob"}} $ion_1_0 $4',
